@@ -1394,6 +1394,10 @@ func (st *Runtime) evaluateArgs(fnType reflect.Type, args CallArgs, pipedArg *re
 
 	if !args.HasPipeSlot && pipedArg != nil {
 		in := fnType.In(slot)
+		if isVariadic && slot == numArgsRequired {
+			// the function only has the variadic parameter: the piped value is the first element of its tail
+			in = in.Elem()
+		}
 		if !(*pipedArg).IsValid() {
 			return nil, fmt.Errorf("piped first argument for %s is not a valid value", fnType)
 		}
